@@ -107,7 +107,7 @@ func runC16Floats(c *core.Ctx) {
 // reverse it" and similar shortcuts are decided by exactly such shapes.
 func runC16Shaped(c *core.Ctx) {
 	r := c.R
-	n := []int{12, 13, 31, 32, 33, 40, 64, 65, 100, 257, 1000, 2049, 4096, 4097, 4098, 4099, 5001, 10002, 16387}[r.Intn(19)]
+	n := []int{12, 12, 12, 13, 31, 32, 33, 40, 64, 65, 100, 257, 1000, 2049, 4096, 4097, 4098, 4099, 5001, 10002, 16387}[r.Intn(21)]
 	shape := r.Intn(5)
 	vals := make([]int, n)
 	for i := range vals {
@@ -124,8 +124,14 @@ func runC16Shaped(c *core.Ctx) {
 			vals[i] = r.Intn(4 * n)
 		}
 	}
-	pert := r.Intn(6)
+	pert := r.Intn(8)
 	switch pert {
+	case 6: // the extremes of the element type (differences that overflow)
+		vals[r.Intn(n)] = math.MinInt
+		vals[r.Intn(n)] = 5
+	case 7:
+		vals[r.Intn(n)] = math.MaxInt
+		vals[r.Intn(n)] = math.MinInt
 	case 1: // the first element belongs elsewhere
 		vals[0] = vals[n/2] + 1
 	case 2:
